@@ -283,17 +283,17 @@ def main(argv):
                              dict(ignore_comments=False, include_omp_conditional_lines=True), dict(process_directives=True, include_omp_conditional_lines=True)):
                     full2 = "program p\n" + "\n".join(body2) + "\nend program p\n"
 
-                    def shape(src):
+                    def opt_shape(src):
                         tree = ParserFactory().create(std="f2008")(FortranStringReader(src, include_dirs=[dd], **opts))
                         return str(tree), [type(n).__name__ for n in _walk(tree)]
-                    want2 = shape(full2)
+                    want2 = opt_shape(full2)
                     for a in range(1, len(body2)):
                         for b in range(a + 1, len(body2) + 1):
                             open(os.path.join(dd, "opt.inc"), "w").write("\n".join(body2[a:b]) + "\n")
                             main = "program p\n" + "\n".join(body2[:a] + ["  include 'opt.inc'"] + body2[b:]) + "\nend program p\n"
                             cases += 1
                             try:
-                                got2 = shape(main)
+                                got2 = opt_shape(main)
                             except BaseException as e:  # noqa
                                 got2 = ("%s: %s" % (type(e).__name__, str(e)[:150]), [])
                             if got2 != want2:
